@@ -68,10 +68,11 @@ HIST = []    # every call this process made into the index maps, in order: [name
 
 
 def _raw():
-    from prysm.polynomials import zernike as z
-    from prysm.polynomials.xy import xy_j_to_mn
-    return {'ansi': z.ansi_j_to_nm, 'noll': z.noll_to_nm, 'fringe': z.fringe_to_nm, 'xy': xy_j_to_mn,
-            'inv_ansi': z.nm_to_ansi_j, 'inv_fringe': z.nm_to_fringe}
+    """the functions under test, taken from the PUBLIC package path `prysm.polynomials.<name>` (what users import;
+    a shim or alias added in polynomials/__init__.py is therefore what gets executed)"""
+    from prysm import polynomials as P
+    return {'ansi': P.ansi_j_to_nm, 'noll': P.noll_to_nm, 'fringe': P.fringe_to_nm, 'xy': P.xy_j_to_mn,
+            'inv_ansi': P.nm_to_ansi_j, 'inv_fringe': P.nm_to_fringe}
 
 
 def _logged(name, f):
@@ -231,6 +232,48 @@ def _order_sequence(ctx, conv, J, wide=False):
     return [j for j in seq if lo <= j <= J]
 
 
+_NPKINDS = {'int64': np.int64, 'int32': np.int32, 'array0d': lambda j: np.array(j, dtype=np.int64)}
+
+
+def _npint_call(ctx, item, case, f, kind, *ints):
+    """call f with NumPy integer arguments of the given kind (what `for j in np.arange(...)` or an indexing result
+    hands over); 0-d arrays go through pure_call (the caller's array must not be modified, second answer identical)"""
+    args = [_NPKINDS[kind](v) for v in ints]
+    if kind == 'array0d':
+        return _call(lambda *a: C.pure_call(ctx, item, case, f, *a), *args)
+    return _call(f, *args)
+
+
+def _npint_check(ctx, conv, f, lo, J, model_all, real):
+    """the maps on np.int64 / np.int32 scalars and 0-d integer arrays: same answers as on Python ints"""
+    js = set(range(lo, lo + 120))
+    t = 1
+    while _block_end(conv, t) + 1 <= J:
+        if t < 40 or t % 7 == 0:
+            e = _block_end(conv, t)
+            js.update((e - 1, e, e + 1))
+        t += 1
+    js.update(int(x) for x in ctx.rng.integers(lo, J + 1, size=ctx.scale(300, 2000)))
+    js = sorted(j for j in js if lo <= j <= J)
+    item = f'{conv}_npint'
+    for kind in _NPKINDS:
+        nbad = 0
+        for j in js:
+            case = {'j': j, 'dtype': kind}
+            ctx.case(item, case, nontrivial=j > lo, tag=kind)
+            mm = tuple(int(x) for x in model_all[j - lo])
+            st, val = _npint_call(ctx, item, case, f, kind, j)
+            if st != 'ok' or val != mm:
+                if tuple(int(x) for x in real[j - lo]) != mm:
+                    continue     # wrong for the Python int as well: reported by the sweep with the property's predicates
+                nbad += 1
+                if nbad <= 2:
+                    got = val if st == 'ok' else f'{st}: {val}'
+                    ctx.disagree(item, case, got, list(mm))
+                    ctx.pred_fail(item, case, f'{conv}({kind}({j})) = {got}, but {mm} for the Python int {j}: '
+                                  'the answer depends on the integer type of the index')
+
+
 def _order_check(ctx, conv, f, seq, model, item):
     """run `seq` through the logged function `f`; the answer to every call must be the model's answer for that index,
     whatever was asked before.  On the first difference the call history is shrunk to a short reproducing sequence."""
@@ -324,8 +367,19 @@ def _array_predicates(ctx, conv, lo, pairs):
     return bad
 
 
-def _boundary_indices(ctx, conv):
-    """indices where a float ceil(sqrt(.)) could slip, sqrt arguments strictly below 2^52"""
+# rows the O(sqrt j) list (Noll) / loops (XY) of the implementation can reach in the time budget; the last column is used
+# when the translator tie is degraded (an item fell back to the hand model): execution is then all there is
+NOLL_TOP = {'quick': 60000, 'thorough': 1500000, 'degraded': 5000000}
+XY_TOP = {'quick': 12000, 'thorough': 60000, 'degraded': 3000000}
+
+
+def _loguniform(rng, lo, hi, size):
+    return [int(x) for x in np.exp(rng.uniform(np.log(lo), np.log(hi), size=size))]
+
+
+def _boundary_indices(ctx, conv, degraded=False):
+    """indices where a float ceil(sqrt(.)) could slip (block ends +-1), sqrt arguments strictly below 2^52, plus
+    sparse log-uniform random indices (not at block ends) over the same range"""
     rng = ctx.rng
     out = set()
     if conv == 'fringe':
@@ -335,6 +389,7 @@ def _boundary_indices(ctx, conv):
         for k in ks:
             for d in (-1, 0, 1):
                 out.add(k * k + d)
+        out.update(_loguniform(rng, 10 ** 5, 2 ** 52 - 1, ctx.scale(400, 4000) * (5 if degraded else 1)))
     elif conv == 'ansi':
         top = 2 ** 25 - 3          # 9 + 8 t(t+3)/2 = (2t+3)^2 < 2^52
         ts = list(range(0, 40)) + [top - i for i in range(0, 12)] + [2 ** e + d for e in range(6, 25) for d in (-1, 0, 1)]
@@ -343,14 +398,26 @@ def _boundary_indices(ctx, conv):
             for d in (-1, 0, 1, 2):
                 out.add(tri(t) + d)              # first index of row t, +-1
                 out.add(t * (t + 3) // 2 + d)    # last index of row t, +-1 (where 9 + 8 j is a perfect square)
+        out.update(_loguniform(rng, 10 ** 5, 2 ** 49 - 2, ctx.scale(400, 4000) * (5 if degraded else 1)))
     else:
-        # noll builds a list of length ~sqrt(2j), xy walks ~sqrt(2j) steps: keep rows below the tier bound
-        top = ctx.scale(60000, 1500000) if conv == 'noll' else ctx.scale(12000, 60000)
+        tops = NOLL_TOP if conv == 'noll' else XY_TOP
+        top = tops[ctx.tier]
         ts = list(range(0, 40)) + [top - i for i in range(0, 6)] + [2 ** e + d for e in range(6, 22) for d in (-1, 0, 1) if 2 ** e + d < top]
         ts += [int(x) for x in rng.integers(40, top, size=ctx.scale(40, 300))]
         for t in ts:
             for d in (-1, 0, 1, 2):
                 out.add(tri(t) + d)
+        out.update(_loguniform(rng, 10 ** 5, tri(top), ctx.scale(40, 300)))
+        if degraded and tops['degraded'] > top:
+            # no theorem speaks about this source any more: go as far as the implementation's cost allows
+            wide = tops['degraded']
+            rows = [wide - i for i in range(0, 3)] + _loguniform(rng, top, wide, 60) + \
+                   [10 ** e + d for e in range(5, 7) for d in (-1, 0, 1) if 10 ** e + d < wide]
+            for t in rows:
+                for d in (0, 1):
+                    out.add(tri(t) + d)
+                out.add(tri(t) + t // 2)
+            out.update(_loguniform(rng, tri(top), tri(wide), 60))
     return sorted(x for x in out if x >= FIRST[conv])
 
 
@@ -378,7 +445,10 @@ def correspondence(ctx):
     for conv in CONVS:
         for a, b in _chunks(FIRST[conv], J + 1, CH):
             lines.append(f'sweep {conv} {a} {b}')
-    bnd = {conv: _boundary_indices(ctx, conv) for conv in CONVS}
+    bnd = {conv: _boundary_indices(ctx, conv, degraded=ctx.widen) for conv in CONVS}
+    if ctx.widen:
+        ctx.notes.append('translator tie degraded (' + ', '.join(ctx.untranslatable) + '): boundary rows widened to '
+                         f'Noll {NOLL_TOP["degraded"]}, XY {XY_TOP["degraded"]}, 5x random large indices, wider order probing')
     for conv in CONVS:
         for a in range(0, len(bnd[conv]), 2000):
             lines.append(f'fwds {conv} ' + ' '.join(map(str, bnd[conv][a:a + 2000])))
@@ -419,7 +489,7 @@ def correspondence(ctx):
             try:
                 HIST.append(['range', conv, a, b])
                 fr = f.raw
-                with _limit(ctx.scale(30, 120)):
+                with _limit(ctx.scale(60, 300)):
                     got = [fr(j) for j in range(a, b)]
                 raw = np.array(got)
                 if raw.dtype.kind not in 'iu' and not (raw.dtype.kind == 'f' and (raw == np.floor(raw)).all()):
@@ -468,6 +538,7 @@ def correspondence(ctx):
             _order_check(ctx, conv, f, seq2, [tuple(int(x) for x in model_all[j - lo]) for j in seq2], f'{conv}_order')
             ctx.evaluations += len(seq2)
             ctx.items[f'{conv}_order'] += len(seq2)
+            _npint_check(ctx, conv, f, lo, J, model_all, real)
         # round trip through the real inverse, every index
         if conv in inv:
             g = inv[conv].raw      # 10^5..10^6 calls: not logged one by one
@@ -479,7 +550,7 @@ def correspondence(ctx):
                     r = g(n, m)
                 except Exception as ex:   # noqa
                     r = f'raised {type(ex).__name__}: {ex}'
-                if not (isinstance(r, (int, np.integer)) and r == j):
+                if not (isinstance(r, (int, float, np.integer, np.floating)) and r == j):
                     nbad += 1
                     if nbad <= 3:
                         ctx.pred_fail(f'{conv}_roundtrip', {'j': j}, f'nm_to_{conv}{"_j" if conv == "ansi" else ""}(*{conv}({j})) = {r!r}, expected {j}')
@@ -493,10 +564,10 @@ def correspondence(ctx):
         for a in range(0, len(js), 2000):
             model += next(rep).split()
         model = [(int(model[2 * i]), int(model[2 * i + 1])) for i in range(len(js))]
-        for j, mm in zip(js, model):
+        for kb, (j, mm) in enumerate(zip(js, model)):
             case = {'j': j}
             ctx.case(f'{conv}_boundary', case, nontrivial=True, tag='big' if j > 10 ** 6 else 'small')
-            st, val = _call(fwd[conv], j, limit=30.0)
+            st, val = _call(fwd[conv], j, limit=60.0)
             if st != 'ok' or val != mm:
                 ctx.disagree(f'{conv}_boundary', case, val if st == 'ok' else f'{st}: {val}', list(mm))
                 ok_prop = st == 'ok' and len(val) == 2 and ((val[0] >= 0 and val[1] >= 0) if conv == 'xy' else valid(*val))
@@ -515,6 +586,13 @@ def correspondence(ctx):
                 r = _call(inv[conv], *val)
                 if r != ('ok', (j,)):
                     ctx.pred_fail(f'{conv}_roundtrip', case, f'inverse of {val} gives {r[1]}, expected {j}')
+            if kb % 20 == 0 and st == 'ok' and val == mm and j < 2 ** 59:
+                c2 = {'j': j, 'dtype': 'int64'}
+                ctx.case(f'{conv}_npint', c2, nontrivial=True, tag='int64-big')
+                r = _npint_call(ctx, f'{conv}_npint', c2, fwd[conv], 'int64', j)
+                if r != ('ok', mm):
+                    ctx.disagree(f'{conv}_npint', c2, r[1], list(mm))
+                    ctx.pred_fail(f'{conv}_npint', c2, f'{conv}(int64({j})) = {r[1]}, but {mm} for the Python int')
 
     # ------------------------------------------------------------ every valid (n, m), n <= 400, through the inverses
     for conv in ('ansi', 'fringe'):
@@ -532,6 +610,14 @@ def correspondence(ctx):
             back = _call(fwd[conv], val[0])
             if back != ('ok', (n, m)):
                 ctx.pred_fail(f'{conv}_inverse', case, f'({n}, {m}) -> {val[0]} -> {back[1]}: the forward map does not undo the inverse')
+            if n <= 40:
+                for kind in _NPKINDS:
+                    c2 = {'n': n, 'm': m, 'dtype': kind}
+                    ctx.case(f'{conv}_inverse_npint', c2, nontrivial=n > 0, tag=kind)
+                    r = _npint_call(ctx, f'{conv}_inverse_npint', c2, g, kind, n, m)
+                    if r != ('ok', (jm,)):
+                        ctx.disagree(f'{conv}_inverse_npint', c2, r[1], jm)
+                        ctx.pred_fail(f'{conv}_inverse_npint', c2, f'inverse({kind}({n}), {kind}({m})) = {r[1]}, but {jm} for Python ints')
     mj = list(map(int, next(rep).split()))
     for (n, m), jm in zip(vpairs, mj):
         case = {'n': n, 'm': m}
@@ -650,6 +736,21 @@ def replay(inp):
     item, c = inp['item'], inp['input']
     conv = item.split('_')[0]
     print('replaying', item, {k: v for k, v in c.items() if k != 'sequence'})
+    if 'dtype' in c:
+        r = _raw()
+        if 'j' in c:
+            j = c['j']
+            x = _NPKINDS[c['dtype']](j)
+            got = _call(r[conv], x)
+            rule = closed_form(conv, j)
+            print(f'{conv}({c["dtype"]}({j})) -> {got}; {conv}({j}) on a Python int -> {_call(r[conv], j)}; the convention has {rule}')
+            return got != ('ok', tuple(rule))
+        n, m = c['n'], c['m']
+        got = _call(r['inv_' + conv], _NPKINDS[c['dtype']](n), _NPKINDS[c['dtype']](m))
+        ref = _call(r['inv_' + conv], n, m)
+        back = _call(r[conv], got[1][0]) if got[0] == 'ok' else None
+        print(f'inverse({c["dtype"]}({n}), {c["dtype"]}({m})) -> {got}; on Python ints -> {ref}; forward of it -> {back}')
+        return back != ('ok', (n, m))
     if 'sequence' in c:
         # a call SEQUENCE: executed in order on the real functions of this (fresh) process; the last call is the witness
         seq = c['sequence']
@@ -715,29 +816,37 @@ def replay(inp):
 
 MANIFEST_ENTRY = {
     'technique': ('Lean 4 proof over whole-function translations of the index maps (Nat.sqrt arithmetic, list and loop '
-                  'semantics) + exhaustive integer-exact correspondence with the real functions'),
-    'text': ('Machine-checked, for EVERY index and EVERY valid pair (no bound): ansi_j_to_nm / fringe_to_nm / noll_to_nm map the '
-             'indices j>=0 / j>=1 / j>=1 one-to-one onto exactly the pairs with n>=|m|, n-|m| even, and xy_j_to_mn maps j>=1 '
-             'one-to-one onto the non-negative exponent pairs (Set.BijOn, via explicit inverses); nm_to_ansi_j and nm_to_fringe '
-             'undo the forward maps for every index and vice versa on every valid pair; ANSI rule 2j = n(n+2)+m; Noll radial order '
-             'non-decreasing and, for m != 0, even index <-> m > 0; XY closed form (d-p, p). The subjects of these theorems are '
-             're-translated from the current source on every run: the complete bodies of the six functions plus mathops.sign / '
-             'is_odd, including the list noll_to_nm builds and indexes with a negative index (proved in range: no IndexError) '
-             'and the three while loops of xy_j_to_mn (fuel-bounded recursion; proved that the fuel j never runs out). The two '
-             'floating-point idioms ceil(sqrt(D)) and ceil((A+sqrt(D))/2) are read as the exact integers they denote '
-             '(that reading is proved correct over the real numbers: Props/C11.lean ceil_sqrt_exact, ceil_half_sqrt_exact); '
-             'that NumPy computes those integers is validated, not proved: integer-exact comparison of the closed-form model '
-             'with the real functions for every index up to 10^5 (quick) / 10^6 (thorough) in all four conventions, at '
-             'k^2-1,k^2,k^2+1 / triangular numbers +-1 with square-root arguments up to just below 2^52, and for every valid '
-             '(n,m) with n<=400 through the inverse maps; the property predicates are also evaluated directly on the real outputs. '
-             'That the maps are pure functions of their argument is (a) a translator precondition: a body that reads or writes '
-             'module-level names, uses global/nonlocal, mutable defaults, function attributes or a non-cache decorator is '
-             'reported untranslatable (fact indexMapsReadAndWriteNoModuleState in the evidence) and (b) tested: non-ascending '
-             'call sequences (ordered pairs, block-end ping-pong, descending, random permutation; before and after the '
-             'ascending sweeps) must reproduce the answers of the model.'),
+                  'semantics, correctly-rounded-sqrt lemma) + exhaustive integer-exact correspondence with the real functions'),
+    'text': ('Machine-checked, for EVERY index and EVERY valid pair of the exact-arithmetic reading (no bound): ansi_j_to_nm / '
+             'fringe_to_nm / noll_to_nm map the indices j>=0 / j>=1 / j>=1 one-to-one onto exactly the pairs with n>=|m|, n-|m| '
+             'even, and xy_j_to_mn maps j>=1 one-to-one onto the non-negative exponent pairs (Set.BijOn, via explicit inverses); '
+             'nm_to_ansi_j and nm_to_fringe undo the forward maps for every index and vice versa on every valid pair; ANSI rule '
+             '2j = n(n+2)+m; Noll radial order non-decreasing and, for m != 0, even index <-> m > 0; XY closed form (d-p, p). The '
+             'subjects of these theorems are re-translated from the current source on every run: the complete bodies of the six '
+             'functions plus mathops.sign / is_odd, including the list noll_to_nm builds and indexes with a negative index '
+             '(proved in range: no IndexError) and the three while loops of xy_j_to_mn (fuel-bounded recursion; proved that the '
+             'fuel j never runs out); the translated obligations are proved semantically (outermost operator matched, arguments '
+             'by ring/omega), so reordered summands, a conditional instead of (1+sign m)/2, // for int(/) etc. do not alarm. '
+             'The floating-point idioms ceil(sqrt(D)) and ceil((A+sqrt(D))/2) are read as exact integers; proved: that reading is '
+             'the real-number ceiling (ceil_sqrt_exact, ceil_half_sqrt_exact) AND, for any rounding fl with relative error <= 2^-53, '
+             'monotone, exact on integers <= 2^26 (the IEEE binary64 round-to-nearest contract), ceil(fl(sqrt D)) = ceil(sqrt D) '
+             'for every D < 2^52 (float_ceil_sqrt_exact; ansi/noll/fringe_float_formula state it for the generated maps; sharp: '
+             'false at 2^52+1). Assumed, and validated by execution: np.sqrt honours that contract and the integer-valued double '
+             'arithmetic around it (-3+y, /2, squares, floor, mod) is exact. Compared only (integer-exact, model vs the functions '
+             'imported through prysm.polynomials.<name>): every index up to 10^5 (quick) / 10^6 (thorough) in all four conventions; '
+             'k^2-1,k^2,k^2+1 / triangular numbers +-1 and log-uniform random indices with square-root arguments up to just below '
+             '2^52 (Noll / XY up to the rows their O(sqrt j) list / loops reach); every valid (n,m), n<=400, through the inverse '
+             'maps; NumPy integer inputs (np.int64, np.int32 scalars, 0-d arrays; inverse maps too); order independence '
+             '(non-ascending call sequences before and after the sweeps, replay carries the call sequence). The property '
+             'predicates are evaluated directly on the real outputs as well. When a translator item is untranslatable (module '
+             'state, unknown construct, keyword on sqrt/ceil, decorator, extra parameters, re-bound public name) the run prints '
+             'TIE-DEGRADED, the gen_* obligation of that item is vacuous, and execution is widened: sweep to 2*10^5, Noll rows '
+             'to 5*10^6 and XY rows to 3*10^6, 5x more random large indices, 60x60 ordered pairs.'),
     'note': ('Trusted: Lean kernel (+propext, Classical.choice, Quot.sound); the ast->Lean compiler in tools/gen_c11.py for the '
              'Python subset used (ints, exact rationals, lists, for/while/if) - validated each run by model-vs-code execution; '
-             'IEEE sqrt/ceil exactness below 2^52 (validated by the sweep, not proved; the first Fringe failure is exactly '
-             'j=2^52+1, outside the stated quantifier). Noll and XY boundary indices are limited to rows the O(sqrt j) '
-             'list / loop of the implementation can reach in the time budget. nm_to_name / top_n are not covered.'),
+             'IEEE-754 conformance of np.sqrt / np.ceil and exactness of the small-integer double arithmetic (validated by the '
+             'sweeps). Out of scope: indices with sqrt argument >= 2^52 (first Fringe failure j=2^52+1); fixed-width NumPy '
+             'integers narrower than the arithmetic needs (8*idx overflows for uint8 from j=32, int16 from j=4096, int32 from '
+             'j=2^28: observed, outside the stated quantifier, not fixed); nm_to_name / top_n. With a degraded tie a defect that '
+             'only shows beyond Noll row 5*10^6 / XY row 3*10^6 would pass.'),
 }
